@@ -20,6 +20,7 @@ const (
 	oTBL                    // operator tables
 	oCFG                    // option globals
 	oSAN                    // constants, fresh containers, sanitiser results, library results without input operands
+	oHTBL                   // a fresh container that holds references to operator-table nodes (a shallow copy of a table map)
 )
 
 func (o Origin) String() string {
@@ -27,7 +28,7 @@ func (o Origin) String() string {
 	for _, x := range []struct {
 		b Origin
 		n string
-	}{{oIN, "IN"}, {oKEY, "KEY"}, {oTBL, "TBL"}, {oCFG, "CFG"}, {oSAN, "SAN"}} {
+	}{{oIN, "IN"}, {oKEY, "KEY"}, {oTBL, "TBL"}, {oCFG, "CFG"}, {oSAN, "SAN"}, {oHTBL, "HOLDS-TBL"}} {
 		if o&x.b != 0 {
 			p = append(p, x.n)
 		}
@@ -242,6 +243,10 @@ func (p *Prov) solve() {
 								}
 								add(x, o&^oIN)
 							default:
+								if o&oHTBL != 0 {
+									// a member read out of a shallow table copy may be a table node
+									o = o&^oHTBL | oTBL
+								}
 								add(x, o)
 							}
 						} else {
@@ -358,7 +363,11 @@ func (p *Prov) transferCall(x *ssa.Call, add func(ssa.Value, Origin), get func(s
 	k := calleeKey(cc)
 	switch k {
 	case omMethod("Get"):
-		add(x, get(cc.Args[0])&(oIN|oTBL|oSAN))
+		o := get(cc.Args[0])
+		if o&oHTBL != 0 {
+			o |= oTBL
+		}
+		add(x, o&(oIN|oTBL|oSAN))
 		return
 	case omMethod("Front"), omMethod("Back"), omMethod("GetElement"):
 		add(x, get(cc.Args[0]))
@@ -370,6 +379,9 @@ func (p *Prov) transferCall(x *ssa.Call, add func(ssa.Value, Origin), get func(s
 		add(x, oSAN)
 		return
 	case omMethod("Set"), omMethod("Delete"), omMethod("Len"):
+		if k == omMethod("Set") && len(cc.Args) == 3 && get(cc.Args[2])&(oTBL|oHTBL) != 0 {
+			add(cc.Args[0], oHTBL) // the receiver now holds a reference into the tables
+		}
 		add(x, oSAN)
 		return
 	case "builtin append":
